@@ -345,7 +345,7 @@ func (e *emitter) call(call *ast.CallExpr) []emNode {
 	case name == "fmt.Fprintf" && e.isBuf(call.Args[0]):
 		e.sites++
 		return e.format(call.Args[1], call.Args[2:], "")
-	case (name == "bytes.Buffer.WriteString" || name == "bytes.Buffer.Write") && e.isBuf(recvOf(call)):
+	case isBufWrite(name) && e.isBuf(recvOf(call)):
 		e.sites++
 		return e.concat(call.Args[0])
 	}
@@ -376,7 +376,16 @@ func (e *emitter) call(call *ast.CallExpr) []emNode {
 
 func (e *emitter) isBuf(x ast.Expr) bool {
 	t := e.fi.Info.TypeOf(x)
-	return t != nil && isNamed(derefType(t), "bytes", "Buffer")
+	return t != nil && (isNamed(derefType(t), "bytes", "Buffer") || isNamed(derefType(t), "strings", "Builder"))
+}
+
+// isBufWrite: appending text to an in-memory buffer of either standard kind.
+func isBufWrite(name string) bool {
+	switch name {
+	case "bytes.Buffer.WriteString", "bytes.Buffer.Write", "strings.Builder.WriteString", "strings.Builder.Write":
+		return true
+	}
+	return false
 }
 
 // emits reports whether fn (transitively, depth-bounded) contains an emit primitive call.
@@ -394,7 +403,7 @@ func (c *Ctx) emitsDepth(fn *FuncInfo, d int, seen map[*FuncInfo]bool) bool {
 		if emitPrims[n] || n == "go/printer.Fprint" {
 			return true
 		}
-		if (n == "fmt.Fprintf" || n == "bytes.Buffer.WriteString" || n == "bytes.Buffer.Write") && fn.Pkg == c.W {
+		if (n == "fmt.Fprintf" || isBufWrite(n)) && fn.Pkg == c.W {
 			return true
 		}
 		if cf := c.FnOf(fn.callee(cl)); cf != nil && c.emitsDepth(cf, d+1, seen) {
